@@ -1035,6 +1035,11 @@ impl<'a> Runner<'a> {
                 self.out.push(op.to_string());
             }
             Some("req") => self.exec_req(op, &w),
+            Some("fuzz") => {
+                self.flush_pending(false);
+                let (line, _) = exec_fuzz(self.inst, op);
+                self.out.push(line);
+            }
             _ => panic!("unknown op: {op}"),
         }
     }
@@ -1678,6 +1683,323 @@ fn gen_plans(seed: u64, tier: &str, rows: &[Row], peer: &str) -> (Vec<(CaseCfg, 
     (insts, plans)
 }
 
+
+// ------------------------------------------------------------------ profile=pathfuzz (C16)
+
+/// Panics anywhere in this process (the daemon runs in it), as recorded by the panic hook.
+static PANICS: std::sync::Mutex<Vec<String>> = std::sync::Mutex::new(Vec::new());
+
+fn install_panic_hook() {
+    std::panic::set_hook(Box::new(|info| {
+        let loc = info
+            .location()
+            .map(|l| {
+                let f = l.file();
+                let f = f.strip_prefix("/repo/").map(|x| format!("krill/{x}")).unwrap_or_else(|| {
+                    match f.find("/registry/src/") {
+                        Some(i) => f[i + 14..].splitn(2, '/').nth(1).unwrap_or(f).to_string(),
+                        None => match f.find("/library/") {
+                            Some(i) => format!("std{}", &f[i + 8..]),
+                            None => f.to_string(),
+                        },
+                    }
+                });
+                format!("{f}:{}", l.line())
+            })
+            .unwrap_or_else(|| "?".into());
+        let msg = if let Some(s) = info.payload().downcast_ref::<&str>() {
+            s.to_string()
+        } else if let Some(s) = info.payload().downcast_ref::<String>() {
+            s.clone()
+        } else {
+            "?".to_string()
+        };
+        let msg: String = msg.chars().take(60).map(|c| if c.is_ascii_alphanumeric() { c } else { '_' }).collect();
+        if let Ok(mut p) = PANICS.lock() {
+            p.push(format!("{loc};{msg}"));
+        }
+    }));
+}
+
+/// Boundary values for a path segment (already percent-encoded where necessary).
+fn seg_values() -> Vec<String> {
+    let mut v: Vec<String> = [
+        "18446744073709551615", "9223372036854775807", "-9223372036854775808", "9223372036854775808", "18446744073709551616",
+        "-9223372036854775809", "0", "-1", "1", "-0", "+1", "4294967295", "4294967296", "2147483648", "-2147483649",
+        "8200000000000", "-8200000000000", "99999999999999999999999999999999999999999", "1e10", "0x10", "1.5", "NaN",
+        "", "%20", "%201", ".", "..", "%2e%2e", "%2F", "%2f..%2f..", "%00", "a%00b", "%ff%fe", "%C3%BC", "a%C3%A9",
+        "A%C3%A9", "AS0", "AS4294967295", "AS4294967296", "AS-1", "AS", "as1", "%E2%82%AC%E2%82%AC", "ta", "testbed", "ca1",
+        "-", "_", "*", "%25", "%", "%zz", "a+b", "a;b", "a,b", "null", "true", "[]", "%7B%7D",
+    ]
+    .iter()
+    .map(|s| s.to_string())
+    .collect();
+    v.push("a".repeat(255));
+    v.push("a".repeat(256));
+    v.push("a".repeat(6000));
+    v.push("9".repeat(400));
+    v
+}
+
+fn fuzz_walk(v: &serde_json::Value, path: &mut Vec<String>, out: &mut Vec<Vec<String>>) {
+    out.push(path.clone());
+    match v {
+        serde_json::Value::Object(m) => {
+            for (k, x) in m {
+                path.push(k.clone());
+                fuzz_walk(x, path, out);
+                path.pop();
+            }
+        }
+        serde_json::Value::Array(a) => {
+            for (i, x) in a.iter().enumerate() {
+                path.push(i.to_string());
+                fuzz_walk(x, path, out);
+                path.pop();
+            }
+        }
+        _ => {}
+    }
+}
+
+fn fuzz_set(v: &mut serde_json::Value, path: &[String], new: Option<serde_json::Value>) {
+    if path.is_empty() {
+        if let Some(n) = new {
+            *v = n;
+        }
+        return;
+    }
+    match v {
+        serde_json::Value::Object(m) => {
+            if path.len() == 1 && new.is_none() {
+                m.remove(&path[0]);
+            } else if let Some(x) = m.get_mut(&path[0]) {
+                fuzz_set(x, &path[1..], new);
+            }
+        }
+        serde_json::Value::Array(a) => {
+            if let Ok(i) = path[0].parse::<usize>() {
+                if path.len() == 1 && new.is_none() {
+                    if i < a.len() {
+                        a.remove(i);
+                    }
+                } else if let Some(x) = a.get_mut(i) {
+                    fuzz_set(x, &path[1..], new);
+                }
+            }
+        }
+        _ => {}
+    }
+}
+
+/// Structural mutations of a valid body.
+fn body_mutations(rng: &mut Rng, base: &str, n: usize) -> Vec<(String, Vec<u8>)> {
+    let mut out: Vec<(String, Vec<u8>)> = vec![("valid".into(), base.as_bytes().to_vec())];
+    let Ok(v) = serde_json::from_str::<serde_json::Value>(base) else { return out };
+    let mut paths = Vec::new();
+    fuzz_walk(&v, &mut Vec::new(), &mut paths);
+    let replacements: Vec<(&str, serde_json::Value)> = vec![
+        ("null", serde_json::Value::Null),
+        ("u64max", serde_json::json!(18446744073709551615u64)),
+        ("i64min", serde_json::json!(i64::MIN)),
+        ("neg", serde_json::json!(-1)),
+        ("u32over", serde_json::json!(4294967296u64)),
+        ("float", serde_json::json!(1.0e300)),
+        ("empty-str", serde_json::json!("")),
+        ("offchar", serde_json::json!("a\u{e9}")),
+        ("offchar2", serde_json::json!("A\u{20ac}1")),
+        ("nul", serde_json::json!("a\u{0}b")),
+        ("long-str", serde_json::json!("9".repeat(3000))),
+        ("slash128", serde_json::json!("::/0-128")),
+        ("pfx-big", serde_json::json!("10.0.0.0/33")),
+        ("pfx-neg", serde_json::json!("10.0.0.0/-1")),
+        ("as-range", serde_json::json!("AS4294967295-AS0")),
+        ("empty-arr", serde_json::json!([])),
+        ("empty-obj", serde_json::json!({})),
+        ("bool", serde_json::json!(true)),
+        ("nested", serde_json::json!([[[[[[[[[[1]]]]]]]]]])),
+    ];
+    for _ in 0..n {
+        let p = rng.pick(&paths).clone();
+        let mut m = v.clone();
+        let label;
+        if rng.chance(1, 8) {
+            fuzz_set(&mut m, &p, None);
+            label = format!("remove:{}", p.join("."));
+        } else {
+            let (l, r) = rng.pick(&replacements).clone();
+            fuzz_set(&mut m, &p, Some(r));
+            label = format!("{l}:{}", p.join("."));
+        }
+        out.push((label.replace(' ', "_"), m.to_string().into_bytes()));
+    }
+    // byte-level: truncations and a big-number literal serde has to deal with
+    let b = base.as_bytes();
+    for k in [1usize, b.len() / 3, b.len() / 2, b.len().saturating_sub(1)] {
+        out.push((format!("trunc:{k}"), b[..k.min(b.len())].to_vec()));
+    }
+    out.push(("digits".into(), base.replace("64501", &"9".repeat(500)).into_bytes()));
+    out
+}
+
+fn generic_bodies() -> Vec<(String, Vec<u8>)> {
+    let mut v: Vec<(String, Vec<u8>)> = vec![
+        ("empty".into(), Vec::new()),
+        ("obj".into(), b"{}".to_vec()),
+        ("arr".into(), b"[]".to_vec()),
+        ("null".into(), b"null".to_vec()),
+        ("num".into(), b"18446744073709551616".to_vec()),
+        ("str".into(), b"\"x\"".to_vec()),
+        ("xml".into(), b"<parent_response xmlns=\"http://www.hactrn.net/uris/rpki/rpki-setup/\" version=\"1\"/>".to_vec()),
+        ("xml-trunc".into(), b"<repository_response".to_vec()),
+        ("nonutf8".into(), vec![0xff, 0xfe, 0x00, 0x7b]),
+        ("bom".into(), vec![0xef, 0xbb, 0xbf, b'{', b'}']),
+        ("ws-xml".into(), b"   \n<".to_vec()),
+    ];
+    v.push(("deep".into(), format!("{}{}", "[".repeat(5000), "]".repeat(5000)).into_bytes()));
+    v.push(("deep-obj".into(), format!("{}1{}", "{\"a\":".repeat(3000), "}".repeat(3000)).into_bytes()));
+    v.push(("big".into(), format!("{{\"handle\":\"{}\"}}", "a".repeat(200_000)).into_bytes()));
+    v
+}
+
+fn base_body(handler: &str) -> Option<&'static str> {
+    Some(match handler {
+        "cas::index_post" => r#"{"handle":"fz1"}"#,
+        "cas::routes_index" | "cas::routes_try" | "cas::routes_analysis_dryrun" => {
+            r#"{"added":[{"asn":64501,"prefix":"10.1.0.0/24","max_length":24,"comment":"x"}],"removed":[{"asn":64501,"prefix":"10.1.1.0/24","max_length":24}]}"#
+        }
+        "cas::routes_analysis_suggest" => r#"{"asn":"AS64501","ipv4":"10.1.0.0/16","ipv6":"2001:db8::/32"}"#,
+        "cas::aspas_index" => r#"{"add_or_replace":[{"customer":64501,"providers":[64502,64503]}],"remove":[64501]}"#,
+        "cas::aspas_as" => r#"{"added":[64503],"removed":[64502]}"#,
+        "cas::bgpsec" => r#"{"add":[],"remove":[{"asn":64501,"key":"17316903F0671229E8808BA8E8AB0105FA915A07"}]}"#,
+        "cas::children_index" | "testbed::children_index" | "ta::proxy_children_index" => {
+            r#"{"handle":"c1","resources":{"asn":"AS64501","ipv4":"10.1.0.0/24","ipv6":""},"id_cert":"MIIB"}"#
+        }
+        "cas::children_child_index" => {
+            r#"{"id_cert":null,"resources":{"asn":"AS64501","ipv4":"10.1.0.0/24","ipv6":""},"suspend":false,"resource_class_name_mapping":{"name_in_parent":"0","name_for_child":"x"}}"#
+        }
+        "cas::children_child_import" => r#"{"name":"child1","id_cert":"MIIB","resources":{"asn":"AS64501","ipv4":"","ipv6":""},"issued_certs":[]}"#,
+        "cas::parents_index" | "cas::parents_parent" => r#"{"handle":"parent1","response":{"tag":null,"id_cert":"MIIB","parent_handle":"p","child_handle":"c","service_uri":"https://localhost/rfc6492/p"}}"#,
+        "cas::repo_index" | "ta::proxy_repo_index" => r#"{"repository_response":{"tag":null,"publisher_handle":"ca1","id_cert":"MIIB","service_uri":"https://localhost/rfc8181/ca1","repo_info":{"sia_base":"rsync://localhost/repo/ca1/","rrdp_notification_uri":"https://localhost/rrdp/notification.xml"}}}"#,
+        "pubd::delete" => r#"{"base_uri":"rsync://localhost/repo/nothing-here/"}"#,
+        "pubd::init" => r#"{"rrdp_base_uri":"https://localhost/rrdp/","rsync_jail":"rsync://localhost/repo/"}"#,
+        "pubd::publishers_index" | "testbed::publishers_index" => r#"{"tag":null,"publisher_handle":"p1","id_cert":"MIIB"}"#,
+        "bulk::cas_import" => r#"{"ta":{"ta_aia":"rsync://localhost/ta/ta.cer","ta_uri":"https://localhost/ta/ta.cer","ta_key_pem":null},"publication_server":{"rrdp_base_uri":"https://localhost/rrdp/","rsync_jail":"rsync://localhost/repo/"},"cas":[{"handle":"x","parents":[{"handle":"ta","resources":{"asn":"AS1","ipv4":"","ipv6":""}}],"roas":[{"asn":1,"prefix":"10.0.0.0/8","max_length":8}]}]}"#,
+        "ta::proxy_signer_add" | "ta::proxy_signer_update" => r#"{"id_cert":"MIIB","tal":"rsync://localhost/ta/ta.cer\n\nMIIB"}"#,
+        "ta::proxy_signer_response" => r#"{"nonce":"x","child_responses":{},"ta_cert_details":null}"#,
+        _ => return None,
+    })
+}
+
+struct FuzzOp {
+    group: usize,
+    line: String,
+}
+
+fn gen_pathfuzz(seed: u64, tier: &str, rows: &[Row]) -> Vec<FuzzOp> {
+    let mut rng = Rng::new(seed ^ 0x16);
+    let thorough = tier == "thorough";
+    let values = seg_values();
+    let mut ops = Vec::new();
+    let mut group = 0;
+    // GET first (publisher statistics etc. before anything is changed), then the rest
+    let mut order: Vec<&Row> = rows.iter().filter(|r| r.method == "GET").collect();
+    order.extend(rows.iter().filter(|r| r.method != "GET"));
+    for row in order {
+        if row.end == "404" {
+            continue;
+        }
+        // quick: the methods a row does not accept only for a sample of rows (typed segments are parsed
+        // before the method check in several handlers)
+        if row.end == "405" && !thorough && !rng.chance(1, 4) {
+            continue;
+        }
+        let positions: Vec<usize> = row
+            .segs
+            .iter()
+            .enumerate()
+            .filter(|(_, s)| matches!(s, Seg::Param(_) | Seg::Opt(_) | Seg::Rest))
+            .map(|x| x.0)
+            .collect();
+        if positions.is_empty() {
+            continue;
+        }
+        let base = instantiate(row, "ca1", true);
+        for pos in positions {
+            group += 1;
+            let what = match &row.segs[pos] {
+                Seg::Param(n) | Seg::Opt(n) => n.clone(),
+                _ => "rest".into(),
+            };
+            // index of this segment in the instantiated list (optional segments may be absent)
+            let mut segs = base.clone();
+            let k = pos.min(segs.len());
+            if k == segs.len() {
+                segs.push(String::new());
+            }
+            for v in &values {
+                if !thorough && row.end == "405" && !rng.chance(1, 3) {
+                    continue;
+                }
+                let mut s2 = segs.clone();
+                s2[k] = v.clone();
+                if matches!(row.segs[pos], Seg::Rest) && rng.chance(1, 2) {
+                    s2.push(v.clone());
+                    s2.push("..".into());
+                }
+                let m = if row.method == "OTHER" { "PUT" } else { row.method.as_str() };
+                ops.push(FuzzOp { group, line: format!("fuzz {} {} path=/{} what={}", row.idx, m, s2.join("/"), what) });
+            }
+        }
+    }
+    // bodies
+    let generic = generic_bodies();
+    for row in rows.iter().filter(|r| r.method == "POST" && (r.end == "permitted" || r.end == "unchecked" || r.end == "raw")) {
+        group += 1;
+        let path = format!("/{}", instantiate(row, "ca2", false).join("/"));
+        let mut bodies: Vec<(String, Vec<u8>)> = Vec::new();
+        if let Some(b) = base_body(&row.handler) {
+            bodies.extend(body_mutations(&mut rng, b, if thorough { 120 } else { 14 }));
+        }
+        for g in &generic {
+            if thorough || base_body(&row.handler).is_some() || rng.chance(1, 3) {
+                bodies.push(g.clone());
+            }
+        }
+        for (label, b) in bodies {
+            ops.push(FuzzOp {
+                group,
+                line: format!("fuzz {} POST path={path} what=body:{label} body={}", row.idx, if b.is_empty() { "-".to_string() } else { hex::encode(&b) }),
+            });
+        }
+    }
+    ops
+}
+
+/// Sends one fuzz request; returns the trace line.
+fn exec_fuzz(inst: &Instance, op: &str) -> (String, bool) {
+    let w: Vec<&str> = op.split_whitespace().collect();
+    let method = w[2];
+    let path = kv(&w, "path").unwrap_or("/");
+    let body: Option<Vec<u8>> = kv(&w, "body").map(|b| if b == "-" { Vec::new() } else { hex::decode(b).unwrap_or_default() });
+    let body = if body.is_none() && method == "POST" { Some(Vec::new()) } else { body };
+    if let Ok(mut p) = PANICS.lock() {
+        p.clear();
+    }
+    let (status, _) = http(&inst.unix, method, path, Some(&inst.admin_hdr()), body.as_deref());
+    let alive = http(&inst.unix, "GET", "/health", None, None).0 == 200;
+    let panics: Vec<String> = PANICS.lock().map(|p| p.clone()).unwrap_or_default();
+    let mut line = format!("{op} => status={status} alive={}", alive as u8);
+    if let Some(p) = panics.first() {
+        line.push_str(&format!(" panic={p}"));
+    }
+    (line, !panics.is_empty() || status == 0 || !alive)
+}
+
+fn pathfuzz_cfg() -> CaseCfg {
+    CaseCfg { admin_only: false, admin: "fuzz-admin-token".into(), testbed: true, key: 16, roles: Vec::new(), users: Vec::new(), unix: Vec::new() }
+}
+
 // ------------------------------------------------------------------ main
 
 fn current_user() -> String {
@@ -1696,6 +2018,39 @@ fn main() {
     let mut out = args.writer();
     let only = args.extra.get("only").cloned();
     let t0 = Instant::now();
+    install_panic_hook();
+    if args.ops.is_none() && args.extra.get("profile").map(|p| p == "pathfuzz").unwrap_or(false) {
+        // every line is flushed: if the process dies, the last `#pending` line names the request
+        let cfg = pathfuzz_cfg();
+        let inst = Instance::start(&cfg, false, "fz");
+        inst.ensure_cas(&CAS);
+        inst.ensure_issues(&CAS);
+        writeln!(out, "case s{}-c16-pathfuzz", args.seed).unwrap();
+        for l in cfg.lines() {
+            writeln!(out, "{l}").unwrap();
+        }
+        let ops = gen_pathfuzz(args.seed, &args.tier, &rows);
+        let mut dead_groups: Vec<usize> = Vec::new();
+        let mut n = 0;
+        for op in &ops {
+            // one failing input per row and segment is enough (every handler panic costs a worker thread)
+            if dead_groups.contains(&op.group) {
+                continue;
+            }
+            writeln!(out, "#pending {}", op.line).unwrap();
+            out.flush().unwrap();
+            let (line, bad) = exec_fuzz(&inst, &op.line);
+            writeln!(out, "{line}").unwrap();
+            out.flush().unwrap();
+            n += 1;
+            if bad {
+                dead_groups.push(op.group);
+            }
+        }
+        eprintln!("[http {:6.1}s] pathfuzz: {n} requests, {} groups with a failure", t0.elapsed().as_secs_f32(), dead_groups.len());
+        inst.stop();
+        return;
+    }
     if let Some(cases) = args.read_cases() {
         for (i, (id, ops)) in cases.iter().enumerate() {
             let mut cfg = CaseCfg::default();
